@@ -36,6 +36,24 @@ CHECKS = {
               "expression (stored sets, products=intersection, sums=union, summation=projection, literals everywhere) is non-empty "
               "under that coordinate, for all input sparsity patterns within the bounds."),
         design="DESIGN.md §4 C03"),
+    "C04": dict(
+        level="model_checking", engine="E1-KSE",
+        technique="symbolic execution of evaluate, assemble and compute IR kernels on one symbolic heap; cell-by-cell equality decided by z3; bounded",
+        text=("One path runs evaluate(out1), assemble(out2), compute(out2) and compute(out2) again with re-valued inputs of the same "
+              "structure, all three kernels taken from a single generate_module_tensora call. z3 decides that pos/crd/vals of out1 and "
+              "out2 are equal cell by cell for every input of the path, that compute allocates nothing, stores only into the vals array "
+              "assemble sized and leaves every index array and struct pointer untouched, and that the re-run equals the specification "
+              "of the new values."),
+        design="DESIGN.md §4 C04"),
+    "C05": dict(
+        level="model_checking", engine="E1-KSE",
+        technique="symbolic execution of all three IR kernel kinds with per-access safety obligations (bounds, initialisation, ownership, int32 range, unwinding) discharged by z3; bounded",
+        text=("Every load/store/realloc of every enumerated kernel (evaluate; assemble followed by compute) carries obligations - in "
+              "bounds of a live block, cell initialised, block owned by the kernel for writes, no store into an input tensor, int32 "
+              "range of each integer operation, non-negative allocation sizes - discharged by z3 for all well-formed inputs and all "
+              "initial capacities >= 1 (symbolic), plus return value 0, loop unwinding assertion and the hand-back clauses (arrays "
+              "live and at least as long as the structure they describe, stored cells initialised)."),
+        design="DESIGN.md §4 C05"),
 }
 
 NOT_APPLICABLE = {
@@ -44,7 +62,7 @@ NOT_APPLICABLE = {
     "C14": "thread interleavings of CPython, LLVM MCJIT and the cffi build lock: no engine here explores Python thread schedules symbolically (DESIGN.md §5)",
     "C15": "hash seeds, process boundaries and request histories are not inputs of a function a solver can quantify over; the cache-key clause ranges over a small finite set where a symbolic check degenerates to enumeration (DESIGN.md §5)",
 }
-PENDING = {pid: "check under construction in this round (see DESIGN.md §10 build order); not claimed until it runs quiet on the unchanged tree" for pid in ["C04","C05","C06","C07","C09","C10","C11","C12","C16"]}
+PENDING = {pid: "check under construction in this round (see DESIGN.md §10 build order); not claimed until it runs quiet on the unchanged tree" for pid in ["C06","C07","C09","C10","C11","C12","C16"]}
 
 
 def main():
